@@ -69,6 +69,26 @@ def zfloat(t, model: dict[str, Any]) -> float | bool:
     raise ValueError(f"zfloat: unsupported z3 op {t.decl().name()}")
 
 
+def model_to_dict(m) -> dict[str, Any]:
+    """z3 model -> {constant name: float | int | bool} (as the solver workers report counter-models)."""
+    out: dict[str, Any] = {}
+    for d in m.decls():
+        if d.arity() != 0:
+            continue
+        v = m[d]
+        if z3.is_true(v):
+            out[d.name()] = True
+        elif z3.is_false(v):
+            out[d.name()] = False
+        elif z3.is_int_value(v):
+            out[d.name()] = v.as_long()
+        elif z3.is_rational_value(v):
+            out[d.name()] = v.numerator_as_long() / v.denominator_as_long()
+        elif z3.is_algebraic_value(v):
+            out[d.name()] = float(v.approx(40).as_decimal(30).rstrip("?"))
+    return out
+
+
 def cfloat(v: Cx, model) -> complex:
     return complex(zfloat(v.re, model), zfloat(v.imz, model))
 
